@@ -100,7 +100,7 @@ CLAIMED = {
   technique="value-origin analysis of struct literals and call arguments over SSA (convention table, sibling argument-position agreement) + path-sensitive n-1 normalisation facts + ordering/typestate of the request table + lock-held check on scratch buffers, custom checker",
   ref="DESIGN.md section 4 C19"),
  "C20": dict(
-  text="Static analysis of four structural necessary conditions of queue refinement, and nothing more: the per-key wait and holder queues append to their inline slice only where the overflow ring / scale queue is absent or tested empty (the slice is served first, so anything else reorders); Pop and PopRight of the three segmented deques clear the slot they vacate (Restructuring re-pushes every non-nil slot); their Push stores at the tail cursor before advancing it and takes a new node when the cursor reaches the node size; element reads in Pop / PopRight / Head / Tail sit behind an emptiness test. The bulk of the property - the (node, index) cursor arithmetic across node boundaries, Len, growth, shrink, Resize / Rellac / Restructuring / Reset, iteration, the priority ring's order - needs an inductive invariant and is NOT decided; a wrong index computation there is not seen. Hence 'other', with a deliberately narrow claim.",
+  text="Static analysis of six structural necessary conditions of queue refinement, and nothing more: the per-key wait and holder queues append to their inline slice only where the overflow ring / scale queue is absent or tested empty (the slice is served first, so anything else reorders); Pop and PopRight of the three segmented deques clear the slot they vacate (Restructuring re-pushes every non-nil slot); their Push stores at the tail cursor before advancing it and takes a new node when the cursor reaches the node size; element reads in Pop / PopRight / Head / Tail sit behind an emptiness test. The bulk of the property - the (node, index) cursor arithmetic across node boundaries, Len, growth, shrink, Resize / Rellac / Restructuring / Reset, iteration, the priority ring's order - needs an inductive invariant and is NOT decided; a wrong index computation there is not seen. Hence 'other', with a deliberately narrow claim.",
   note="Trusted: Go type checker, go/ssa, the explorer's branch history.",
   technique="path-sensitive SSA guard/ordering analysis of queue entry points (append-site guard, clear-before-return, store-before-advance, read-behind-test), custom checker",
   ref="DESIGN.md sections 4 C20 and 9.8"),
@@ -108,23 +108,25 @@ CLAIMED = {
 
 # rules added after the first build (independent seeded changes, refactoring experiments); DESIGN.md 9.3
 ADDED = {
- "C01": "Also: a fresh manager is published only after ruling out an existing one for the key; a pooled manager's key is zeroed; GetOrNewDB is check-then-act under one mutex.",
- "C02": "Also: RemoveLock keeps the LockId index in step; cancelWaitLock selects only not-yet-answered queue entries.",
+ "C01": "Also: a fresh manager is published only after ruling out an existing one for the key; a pooled manager's key is zeroed; GetOrNewDB is check-then-act under one mutex. A key's fast slot is cleared only after its manager was tombstoned or put into the slow map.",
+ "C02": "Also: RemoveLock keeps the LockId index in step; cancelWaitLock selects only not-yet-answered queue entries. The holder lookup by LockId returns only live matching entries and reports a miss only after examining the inline slice and the overflow index.",
  "C04": "Also: the FIFO-to-priority-ring switch condition and the arrival-order migration; the priority bypass is decided on path facts whether or not a helper holds it.",
  "C05": "Also: sweepers re-arm an entry only after testing its tombstone clear.",
  "C06": "Also: the long-table entry is removed under the deadline read before the update; re-arm only after the tombstone test; recycled long-wait buckets are re-initialised.",
- "C07": "Also: log-file lists are snapshot-first; UnLock clears the persisted mark only with removal.",
- "C08": "Also: values buffered only with records; readers never return io.ReadFull's error unmapped; oversized values written directly only with the record buffer empty.",
+ "C07": "Also: log-file lists are snapshot-first; UnLock clears the persisted mark only with removal. A pooled Lock object enters or leaves the pool with its persisted mark cleared.",
+ "C08": "Also: values buffered only with records; readers never return io.ReadFull's error unmapped; oversized values written directly only with the record buffer empty. Readers return a constructed error only about a completely read item; the newest append file is cut back to whole records before appending (three reproduced crash-recovery defects were repaired).",
  "C09": "Also: receive ring >= queue capacity + 2; live append file touched only under the append mutex (a reproduced race was repaired); the ring examines all 16 id bytes.",
- "C10": "Also: the follower's only local answer needs the concurrent-check flag and Timeout == 0; replayed holds are marked persisted independent of role.",
- "C11": "Also: a new ack table is recounted after publication; the queued timeout stays armed on the ack-pending wake-up path.",
- "C12": "Also: the outstanding-commit marker is cleared only at a closed list of points.",
- "C13": "Also: parser upper bounds and the reply buffer's headroom by linear entailment; the recycled text reply is fully reassigned; fixed-capacity table indexes.",
+ "C10": "Also: the follower's only local answer needs the concurrent-check flag and Timeout == 0; replayed holds are marked persisted independent of role. Server.handle re-dispatches the request a protocol object had already read when the role changed under it.",
+ "C11": "Also: a new ack table is recounted after publication; the queued timeout stays armed on the ack-pending wake-up path. ProcessLeaderPushLock tracks or fails a pending ack request on every return.",
+ "C12": "Also: the outstanding-commit marker is cleared only at a closed list of points. The log-position comparator weighs the id bytes the way the log writes them, file index major (a reproduced ordering defect was repaired).",
+ "C13": "Also: parser upper bounds and the reply buffer's headroom by linear entailment; the recycled text reply is fully reassigned; fixed-capacity table indexes. Allocations sized by an integer decoded from the wire are bounded.",
  "C14": "Also: parser cursors (two reproduced chunking defects repaired), key/id normaliser totality, converters define every wire field of the pooled command.",
- "C15": "Also: no aliasing of the stored value into results; the pre-operation value is read before it is cleared.",
- "C16": "Also: replay quiescence is decided on the channels' queue counters (a reproduced start-up compaction race was repaired); nothing retired after publishing may be the published snapshot; log-file lists snapshot-first.",
- "C17": "Also: queue compaction and migration return the reference of every entry they drop.",
- "C18": "Also: AddProxy succeeds only after tracking the proxy.",
+ "C15": "Also: no aliasing of the stored value into results; the pre-operation value is read before it is cleared. Redis-style result writers say error only where the engine's result says so; a binary request's data frame is a private buffer.",
+ "C16": "Also: replay quiescence is decided on the channels' queue counters (a reproduced start-up compaction race was repaired); nothing retired after publishing may be the published snapshot; log-file lists snapshot-first. HasLock reports a non-LOCK record gone only when no hold with its id exists.",
+ "C17": "Also: queue compaction and migration return the reference of every entry they drop. A function that answers a queued request itself tombstones it before scanning the wait queue.",
+ "C18": "Also: AddProxy succeeds only after tracking the proxy. The code that registers a will does not return the registered command object to the pool.",
+ "C03": "Also: the text protocol zeroes its request-id filter before handing a reply to the connection.",
+ "C20": "Also: slice-and-cursor queues reset the cursor whenever the slice is re-based; the wait queue's overflow field and its mode sentinel change together.",
  "C19": "Also: acquire methods report success only for result 0; the client reader decodes every reply into a fresh object.",
 }
 
